@@ -1,7 +1,7 @@
 #!/usr/bin/env python3
 """Developer tool (not a registered check): confirm a seeded breaking change and run checks against it.
 
-  seedtest.py <seed-id> <outdir> <worktree> <Cxx> [<Cyy> ...] [--tier quick|thorough]
+  seedtest.py <seed-id> <outdir> <worktree> <Cxx> [<Cyy> ...] [--tier quick|thorough] [--via <copy of /verif>]
 
 <outdir> holds patch.diff, demo.py, meta.json written by an independent agent; <worktree> is a scratch git
 worktree of /repo with the change applied. Steps: (1) demo passes on the original code and fails on the
@@ -28,6 +28,11 @@ def sh(cmd, cwd=None, env=None, timeout=3600):
 def main():
     args = sys.argv[1:]
     tier = 'quick'
+    via = None   # --via <copy of /verif>: run the checks from that copy with PICOTOOL_REPO=<worktree> (does not touch /repo)
+    if '--via' in args:
+        i = args.index('--via')
+        via = args[i + 1]
+        del args[i:i + 2]
     if '--tier' in args:
         i = args.index('--tier')
         tier = args[i + 1]
@@ -60,7 +65,27 @@ def main():
     print('seed %s: demo changed=%d original=%d tests=%r -> %s' % (sid, rc_c, rc_o, tests_tail, 'CONFIRMED' if ok else 'REJECTED'))
     # (2) run the checks against /repo with the patch applied
     res['checks'] = {}
-    if ok and checks:
+    if ok and checks and via:
+        # worker-safe mode: /repo stays as it is (other processes may be reading it); the checks of the copy
+        # <via> are pointed at the scratch worktree, which has the change applied
+        env2 = dict(os.environ, PICOTOOL_REPO=wt)
+        for c in checks:
+            rc, out = sh([PY, os.path.join(via, 'harness', 'check.py'), c, '--tier', tier], cwd=via, env=env2, timeout=7200)
+            lines = [l for l in out.split('\n') if l.startswith(('VIOLATION', 'KNOWN-FINDING', c + ' tier='))]
+            detail = None
+            for l in lines:
+                if l.startswith('VIOLATION') and 'replay=' in l:
+                    rp = l.split('replay=')[1].split()[0]
+                    try:
+                        j = json.load(open(rp))
+                        detail = {k: j.get(k) for k in ('kind', 'signature', 'what', 'summary')}
+                        if j.get('broken_obligations'):
+                            detail['broken'] = [b.get('name') for b in j['broken_obligations']][:6]
+                    except Exception:
+                        pass
+            res['checks'][c] = {'exit': rc, 'lines': lines, 'replay': detail, 'mode': 'PICOTOOL_REPO=worktree'}
+            print('  check %s: exit %d %s' % (c, rc, ' | '.join(lines)[:300]))
+    elif ok and checks:
         rc, out = sh(['git', '-C', REPO, 'status', '--porcelain'])
         if out.strip():
             print('refusing: /repo has uncommitted changes')
